@@ -16,6 +16,7 @@ SPEC = {'id': 'C20',
      {'pkg': 'client/lib', 'test': 'TestVerifC20Client$', 'race': True, 'checklinkname': True, 'timeout': '10m'},
      # the workloads of the other checks, re-run under the race detector; only race reports count here
      {'pkg': 'broker', 'test': 'TestVerifC04$', 'race': True, 'race_only': True, 'tier': 'quick', 'timeout': '15m'},
+     {'pkg': 'broker', 'test': 'TestVerifC14$', 'race': True, 'race_only': True, 'tier': 'quick', 'timeout': '30m'},
      {'pkg': 'common/turbotunnel', 'test': 'TestVerifC17', 'race': True, 'race_only': True, 'tier': 'quick', 'timeout': '15m'},
      {'pkg': 'server/lib', 'test': 'TestVerifC05Layer$', 'race': True, 'race_only': True, 'tier': 'quick', 'checklinkname': True, 'timeout': '15m'},
      {'pkg': 'server/lib', 'test': 'TestVerifC18ServerLib', 'race': True, 'race_only': True, 'tier': 'quick', 'checklinkname': True, 'timeout': '15m'},
@@ -25,6 +26,7 @@ SPEC = {'id': 'C20',
  ],
  'overlay': {'broker/zz_verif_c20_test.go': 'c20_broker_test.go',
              'broker/zz_verif_core_test.go': 'broker_core_test.go',
+             'broker/zz_verif_c14_test.go': 'c14_broker_http_test.go',
              'proxy/lib/zz_verif_c20_test.go': 'c20_proxylib_test.go',
              'proxy/lib/zz_verif_c16_test.go': 'c16_proxylib_test.go',
              'client/lib/zz_verif_c20_test.go': 'c20_clientlib_test.go',
@@ -40,7 +42,7 @@ SPEC = {'id': 'C20',
          'logMetrics loop and of the SIGHUP geoip reload and /debug + /prometheus scrapes running every few ms; the proxy '
          'traffic counter, periodic summary, tokens and NAT type driven from the goroutines that drive them in snowflake.go; '
          'the client Peers collection over real pion peers under collect / pop / read / write / close churn, NAT updates '
-         'and End() during churn; plus the harnesses of C04 (forced herds at timeout boundaries), C17 (ClientMap / '
+         'and End() during churn; plus the harnesses of C04 (forced herds at timeout boundaries), C14 (the real broker binary, built with -race for this run, geoip databases loaded, SIGHUP every 40 ms while it serves the generated HTTP traffic), C17 (ClientMap / '
          'QueuePacketConn / RedialPacketConn), C05 and C18 (server sessions and carriers), C01 (whole client-server stack), '
          'C15 (Peers) and C16 (proxy sessions against a pion client) re-run under -race. One case = one driven flow / '
          'connection / round; every race report is a finding keyed by the first frames of both stacks inside the code '
